@@ -201,7 +201,9 @@ pub fn pathv(seed: u64, out: &mut Outcome) {
     sim.tx_tap = Some(Box::new(move |sim: &mut Sim, node: usize, ch: usize, before: &Snapshot, t: &quinn_proto::Transmit, buf: &[u8]| {
         let mut guard = o1.borrow_mut();
         let o = &mut *guard;
-        if !before.path.validated && t.destination == before.path.remote && !o.validated_addrs[node].contains(&t.destination) {
+        // armed by the harness' own set of validated addresses ONLY (not by the connection's `path.validated`: a path that is
+        // born validated without any proof of address ownership is exactly what must be caught)
+        if t.destination == before.path.remote && !o.validated_addrs[node].contains(&t.destination) {
             let (sb, rb) = match sim.nodes[node].amp_epoch.get(&ch) {
                 Some((a, sb, rb)) if *a == t.destination => (*sb, *rb),
                 _ => (0, 0),
